@@ -261,7 +261,7 @@ P["C11"] = {"property": "C11", "level": "proof", "units": [
       expect=["contract_C11_base64_encode\\.postcondition\\.3", "base64_encode\\.loop_invariant_step", "base64_encode\\.loop_decreases"],
       timeout=3000, tier="thorough", checks="none", safety_unit="C11.base64_encode.shape"),
     U("C11.base64_decode", "base64_decode (libjwt/base64.c)", B64_C, "contracts/base64_c.h",
-      "unsigned n; __CPROVER_assume(n <= B64_IN_MAX); char *in = malloc(n); __CPROVER_assume(n == 0 || in != NULL); "
+      "unsigned n; __CPROVER_assume(n <= B64_DEC_IN_MAX); char *in = malloc(n); __CPROVER_assume(n == 0 || in != NULL); "
       "unsigned char *out = malloc((size_t)3 * (n / 4) + 1); __CPROVER_assume(out != NULL); base64_decode(in, n, out);",
       "base64_decode/contract_C11_base64_decode", stubs=["stubs/ghost.c"], defines=["VERIF_NO_JWT_OPS_DEF"],
       flags=["--conversion-check"],
@@ -279,9 +279,9 @@ P["C11"] = {"property": "C11", "level": "proof", "units": [
 P["C11"]["units"] = [u for u in P["C11"]["units"] if u["name"] != "C11.base64_encode"]
 P["C11"]["units"] += [
     U("C11.jwt_base64uri_decode", "jwt_base64uri_decode (libjwt/jwt.c)", JWT_C, "contracts/jwt_c.h",
-      "size_t n; __CPROVER_assume(n <= 0x5fffffe0); char *s = nondet_bool() ? NULL : VS(n); int *rl; int l; rl = nondet_bool() ? NULL : &l; jwt_base64uri_decode(s, rl);",
+      "size_t n; __CPROVER_assume(n < 0x200000000UL); char *s = nondet_bool() ? NULL : VS(n); int *rl; int l; rl = nondet_bool() ? NULL : &l; jwt_base64uri_decode(s, rl);",
       "jwt_base64uri_decode/contract_C11_jwt_base64uri_decode", replace=["base64_decode/contract_C11_base64_decode"],
-      stubs=JWT_STUBS, defines=["VERIF_TU_JWT", "VERIF_STRLEN_RECORD"], pre=[VS], flags=["--conversion-check"],
+      stubs=JWT_STUBS, defines=["VERIF_TU_JWT", "VERIF_STRLEN_RECORD"], pre=[VS], flags=["--conversion-check"], replay={"driver": "replay/r_C11_long.c"},
       loops={"jwt_base64uri_decode": [
         {"loop_id": 0, "vars": ["i", "len", "new", "src"], "assigns": "i, __CPROVER_object_whole(new)",
          "invariants": ["0 <= i && i <= len"], "decreases": "len - i"},
